@@ -265,7 +265,8 @@ impl Interpolation {
             })
             .collect::<Vec<_>>();
 
-        let builder_name = format!("{}_builder", key);
+        // use the ident, not the name: a key such as "my-key" has the ident `my_key`
+        let builder_name = format!("{}_builder", key.ident);
 
         let ident = syn::Ident::new(&builder_name, Span::call_site());
 
